@@ -6,7 +6,7 @@ from .common import *
 
 BRIDGE_BUGS_OFF = {"BugGetInfoHardcoded": False, "BugReadAheadToClient": False, "BugDropReplyOnClose": False,
                    "BugPanicNoChild": False, "BugAbortAfterUpgrade": False, "BugStaleCacheAfterInfo": False, "BugIgnoreServiceHangup": False}
-BRIDGE_INVS = ["Transparent", "SwitchesTargets", "UpgradePayloadToService", "StopsWhenServiceEnds", "GoodbyeForwarded", "ExitZero"]
+BRIDGE_INVS = ["Transparent", "PrefixWhenAbandoned", "SwitchesTargets", "UpgradePayloadToService", "StopsWhenServiceEnds", "GoodbyeForwarded", "ExitZero"]
 
 
 def check_C18(tier):
@@ -21,7 +21,8 @@ def check_C18(tier):
     res.add_tlc(r)
     if r.violation:
         res.tlc_violation(r, "MC_Bridge")
-    cases = r.replay
+    # the model's behaviours of a client that leaves early end anywhere; the replay drives those from the complete conversations
+    cases = [c for c in r.replay if not c["abandon"]]
     resolver = [c for c in cases if c["mode"] == "resolver"]
     direct = [c for c in cases if c["mode"] == "direct"]
     # sequences that come BACK to a target after visiting another one (the cached address must follow): all of them; of the other
@@ -43,13 +44,24 @@ def check_C18(tier):
         res.add_failures(fails, "direct-" + sub)
         res.traces += summ["executions"]
         res.evaluations += summ["executions"]
+    # termination clause: the client closes its side right after its last request
+    gone = [c for c in resolver if c["payload"] == 0 and c["pipelined"] and c["reqs"] and c["reqs"][-1]["k"] != "upgrade"]
+    fails, summ, _ = run_vh_parallel(vh, ["bridge", "--abandon"], gone if thorough else gone[::2], n=6, timeout=2400, env=env)
+    res.add_failures(fails, "resolver-client-gone")
+    res.traces += summ["executions"]
+    res.evaluations += summ["executions"]
+    goned = [c for c in direct if c["payload"] == 0 and c["pipelined"] and c["reqs"] and c["reqs"][-1]["k"] != "upgrade"]
+    fails, summ, _ = run_vh_parallel(vh, ["bridge", "--direct=connect", "--abandon"], goned, n=4, timeout=2400, env=env)
+    res.add_failures(fails, "direct-client-gone")
+    res.traces += summ["executions"]
+    res.evaluations += summ["executions"]
     res.nontrivial = {json.dumps([c["mode"], c["reqs"], c["payload"], c["pipelined"]]) for c in cases if len(c["reqs"]) >= 1}
     for c in resolver[40:400:120]:
         res.sample({"mode": c["mode"], "requests": ["%s->%s" % (q["k"], q["svc"]) for q in c["reqs"]], "pipelined": c["pipelined"], "payload": c["payload"], "exit": c["exit"]})
     res.rule = ("MC_Bridge: request sequences (<= 3; quick replays all of length <= 2 and a fifth of those of length 3 that return to a target after "
                 "visiting another one, thorough all of those and a third of the rest) over {plain, more, oneway, error reply, request after which the service hangs up, service-info "
                 "query, upgrade at the end} x two services hosting different interfaces (targets switch) x client behaviour (pipelined / one at a "
-                "time) x upgraded payload (none / two lines, in the same write when pipelined) x who ends the upgraded session (client closes / "
+                "time / gone right after the last request: the bridge stops, reports success, has forwarded a prefix) x upgraded payload (none / two lines, in the same write when pipelined) x who ends the upgraded session (client closes / "
                 "service says goodbye and hangs up while the client stays) x mode {resolver lookup, --connect, --activate, "
                 "--bridge}; real `varlink bridge` process between pipes and real services; compared: client-visible reply sequence, payload at "
                 "the service, exit status; non-trivial = distinct non-empty cases")
